@@ -67,17 +67,20 @@ def check_move(dts, a, b, max_dt):
     """C10 rules for one move a -> b.  Returns list of (key, text)."""
     out = []
     delta = Fraction(b) - Fraction(a)
+    # resolution of the clock at this magnitude: a step of a few ulps of the times themselves is rounding
+    # of (target - reached), not a decision of the runtime (matters for epoch-sized timestamps only)
+    res = 4 * ulp(max(abs(a), abs(b)))
     if a == b and dts:
         out.append(("move:steps-when-times-equal", f"{len(dts)} step(s) although both times are {a!r}"))
     for dt in dts:
         if not math.isfinite(dt):
             out.append(("move:non-finite-step", f"dt={dt!r}"))
             return out
-        if (dt > 0 and delta < 0) or (dt < 0 and delta > 0):
+        if ((dt > 0 and delta < 0) or (dt < 0 and delta > 0)) and abs(dt) > res:
             out.append(("move:wrong-direction", f"step {dt!r} against direction of travel {float(delta)!r} ({a!r} -> {b!r}, max {max_dt})"))
             break
     for dt in dts:
-        if abs(dt) > max_dt + 1e-9:
+        if abs(dt) > max_dt + 1e-9 + res:
             out.append(("move:step-exceeds-max", f"|step| {abs(dt)!r} > max_dt {max_dt} ({a!r} -> {b!r})"))
             break
     cnt = {}
